@@ -83,6 +83,9 @@ def run(ids, tier):
             print("refusing: /repo has uncommitted changes:\n" + out)
             return 2
         entry = {"property": prop, "tier": tier}
+        # the evidence file of the property must keep describing the UNCHANGED tree: save and restore it
+        ev_path = os.path.join(V, "evidence", f"{prop}.json")
+        ev_saved = open(ev_path, "rb").read() if os.path.exists(ev_path) else None
         try:
             rc, out = sh(["git", "-C", REPO, "apply", os.path.join(d, "patch.diff")])
             if rc != 0:
@@ -106,6 +109,9 @@ def run(ids, tier):
                     entry["outcome"] = f"infra-exit-{rc}"
         finally:
             sh(["git", "-C", REPO, "checkout", "--", "."])
+            if ev_saved is not None:
+                with open(ev_path, "wb") as fp:
+                    fp.write(ev_saved)
         results[sid] = entry
         print(sid, entry.get("outcome"), entry.get("wall_s"))
         json.dump(results, open(results_path, "w"), indent=1, sort_keys=True)
